@@ -192,7 +192,8 @@ class canon_nodes:
         return n
 
 
-BIG_STORE = 20000      # above this many nodes the store itself is not reported (nor handed to the model)
+BIG_STORE = 600        # above this many nodes the store itself is not reported nor handed to the model (whose
+                       # evaluation by vm_compute takes 3 s at 500 nodes, 11 s at 1000, 60 s at 2000)
 
 
 def user_projection(sm, users):
@@ -309,9 +310,9 @@ def op_sat(op):
     if op.get("solve"):
         res = bool(sm.solve())
         view["solve"] = res
-    if op.get("ext"):
+    users = sorted({p["v"] for p in op["posts"] if p["k"] == "newvar"})
+    if len(users) <= 10:
         # the meaning of the encoding for its user: the projection of the CNF on the registered variables
-        users = sorted({p["v"] for p in op["posts"] if p["k"] == "newvar"})
         view["ext"] = raw["ext"] = user_projection(sm, users)
         raw["users"] = users
     return {"view": view, "_raw": raw}
